@@ -312,6 +312,11 @@ def observe(job):
     try:
         reg = Region(maxdepth=depth)
         dkw = {"depth": depth} if explicit_depth else {}
+        if nv == 0 and rng.random() < 0.3:
+            # the shape is built in two steps with a query in between: a concentric circle of
+            # half the radius first (a subset, so the final region is the same circle)
+            reg.add_circles(float(cra), float(cdec), r / 2.0, **dkw)
+            reg.sky_within(float(cra), float(cdec))
         if nv == 0:
             if form == "scalar":
                 reg.add_circles(cra, cdec, r, **dkw)
